@@ -128,13 +128,13 @@ def DepsAnswer.mapH (h : VSetHom S V S' V') : DepsAnswer P S M → DepsAnswer P 
 
 /-- the image of a registry: the offered versions are carried along `ι`; a version of `V'` outside the
 image of `ι` (recognised by the partial inverse `back`) is offered by nobody, its dependencies are
-irrelevant (`unavailable` with an arbitrary payload taken from `dflt`) -/
-def World.mapH (h : VSetHom S V S' V') (back : V' → Option V) (dflt : M) (W : World P S V M) :
+irrelevant (no dependencies) -/
+def World.mapH (h : VSetHom S V S' V') (back : V' → Option V) (W : World P S V M) :
     World P S' V' M :=
   { versions := fun p => (W.versions p).map h.ι,
     deps := fun p v' => match back v' with
       | some v => DepsAnswer.mapH h (W.deps p v)
-      | none => .unavailable dflt }
+      | none => .available [] }
 
 end Maps
 end Pubgrub
